@@ -213,6 +213,19 @@ reuse_run(Params *p)
 	sim_quiesce(10000000);
 	UAio *shared = new UAio();
 	bool  sticky_default = W(0, 2) == 0;
+	bool  set_once = W(0, 1) == 0;
+	// a surveyor whose surveys nobody answers: its receive is limited by the survey's deadline as well, which is
+	// the library's business and must not leak into the aio's own time-out
+	nng_socket sv, rs;
+	int        st_ms = (int) (20 + 10 * W(0, 4));
+	MUST(nng_surveyor0_open(&sv));
+	MUST(nng_respondent0_open(&rs));
+	MUST(nng_socket_set_ms(sv, NNG_OPT_SURVEYOR_SURVEYTIME, st_ms));
+	{
+		std::string surl = h_url(TR_INPROC, 22);
+		MUST(nng_listen(rs, surl.c_str(), NULL, 0));
+		MUST(nng_dial(sv, surl.c_str(), NULL, 0));
+	}
 	long  last_set = -1000;
 	int   n      = (int) W(2, 10);
 	int   queued = 0; // messages sent to b and not yet received
@@ -224,10 +237,25 @@ reuse_run(Params *p)
 		if (sticky_default && W(0, 3) != 0)
 			op.timeout = NNG_DURATION_DEFAULT;
 		// an aio left at "default" is not touched between its uses: the time-out that counts is the socket's
-		if (!(op.timeout == NNG_DURATION_DEFAULT && last_set == NNG_DURATION_DEFAULT))
+		// (in half of the runs the same goes for any value: a time-out set once stays what the application set)
+		if (!(op.timeout == last_set && (op.timeout == NNG_DURATION_DEFAULT || set_once)))
 			nng_aio_set_timeout(shared->aio, op.timeout);
 		last_set = op.timeout;
-		long kind = W(0, 3); // 0 sleep, 1 recv (maybe idle), 2 recv with data waiting, 3 send
+		long kind = W(0, 4); // 0 sleep, 1 recv (maybe idle), 2 recv with data waiting, 3 send, 4 surveyor recv
+		long left = 0;       // kind 4: what is left of the survey time when the receive is submitted
+		if (kind == 4) {
+			nng_msg *q = tag_msg(24, 1, 0, (uint32_t) (5000 + i));
+			uint64_t tq = sim_now_ms();
+			if (nng_sendmsg(sv, q, 0) != 0) {
+				nng_msg_free(q);
+				kind = 0;
+			} else {
+				sim_sleep_ms((uint64_t) W(0, st_ms - 6));
+				left = (long) st_ms - (long) (sim_now_ms() - tq) - 2;
+				if (left < 0)
+					left = 0;
+			}
+		}
 		if (kind == 2 && queued == 0) {
 			nng_msg *m = tag_msg(24, 1, 0, (uint32_t) i);
 			if (nng_sendmsg(a, m, NNG_FLAG_NONBLOCK) != 0)
@@ -244,6 +272,10 @@ reuse_run(Params *p)
 		const char      *what;
 		if (kind == 0) {
 			what = "reuse_sleep";
+		} else if (kind == 4) {
+			what = "reuse_survey_recv";
+			// ends at the survey's deadline at the latest: never before the smaller of the two limits
+			tmo = (op.timeout >= 0 && op.timeout < left) ? op.timeout : left;
 		} else if (kind == 3) {
 			what = "reuse_send";
 		} else {
@@ -253,7 +285,7 @@ reuse_run(Params *p)
 			last_set = op.timeout;
 			tmo = op.timeout >= 0 ? op.timeout : -1;
 		}
-		if (op.timeout == NNG_DURATION_DEFAULT && kind != 0) {
+		if (op.timeout == NNG_DURATION_DEFAULT && kind != 0 && kind != 4) {
 			// "default" means the socket's NNG_OPT_SENDTIMEO / NNG_OPT_RECVTIMEO as it is when the operation is
 			// submitted: it is changed between the uses of the aio
 			static const int dm[] = { -1, 15, 40, 120 };
@@ -279,6 +311,10 @@ reuse_run(Params *p)
 			} else {
 				nat.insert(NNG_OK);
 			}
+		} else if (kind == 4) {
+			nng_socket_recv(sv, shared->aio);
+			nat.insert(NNG_ETIMEDOUT); // the survey's deadline ends it (nobody answers)
+			nat.insert(NNG_ESTATE);    // or the survey was over already when the receive was submitted
 		} else if (kind == 3) {
 			sm = tag_msg(24, 1, 0, (uint32_t) (1000 + i));
 			nng_aio_set_msg(shared->aio, sm);
@@ -296,6 +332,9 @@ reuse_run(Params *p)
 			else
 				nng_msg_free(sm);
 			nng_aio_set_msg(shared->aio, NULL);
+		} else if (kind == 4) {
+			if (r == NNG_OK)
+				sim_violation("C02", "unexplained_result", "surveyor receive succeeded although nobody answers");
 		} else if (kind != 0 && r == NNG_OK) {
 			nng_msg *m = nng_aio_get_msg(shared->aio);
 			if (m == NULL)
@@ -317,6 +356,8 @@ reuse_run(Params *p)
 	delete shared;
 	MUST(nng_socket_close(a));
 	MUST(nng_socket_close(b));
+	MUST(nng_socket_close(sv));
+	MUST(nng_socket_close(rs));
 }
 SCENARIO(c02_reuse, "C02", NULL, reuse_run);
 
